@@ -122,38 +122,42 @@ def showMsg : Msg → String
 def magicOf? (chain : String) : Option Bytes :=
   (Spec.chainByName? chain).map (fun p => p.messageStart.map UInt8.ofNat)
 
-/-- header, declared length and checksum of the first frame of `s` pass `stream_deserialize`'s tests -/
-def frameAccepted (magic s : Bytes) : Bool :=
-  let n := Model.Msg.declaredLen s
-  decide (24 ≤ s.length) && s.take 4 == magic && decide (n ≤ Model.Wire.MAX_SIZE) &&
-    decide (24 + n ≤ s.length) && (s.drop 20).take 4 == Model.Msg.checksum ((s.drop 24).take n)
-
 /-- "field values the protocol version carries", with a payload the length field and `ser_read` can honour -/
 def inDomain (m : Msg) : Bool :=
   decide (Spec.Msg.WFMsg m) && decide ((Spec.Msg.payload m).length ≤ Spec.Wire.maxSize)
 
-/-- the `while f.tell() < len(data)` loop of the harness, with positions -/
-def parseLoop (magic : Bytes) (total : Nat) : Nat → Bytes → List String → List String
-  | 0, _, acc => ("eof" :: acc).reverse
-  | fuel + 1, s, acc =>
-    if s.isEmpty then ("eof" :: acc).reverse
-    else
-      match Model.Msg.streamDeserialize magic s with
-      | (.ok m, r) =>
-          let consumed := s.take (s.length - r.length)
-          let txt := match m with
-            | some m =>
-                let re := match Model.Msg.toBytes magic m with
-                  | .ok b => if b = consumed then "same" else "diff"
-                  | .error e => "err:" ++ e.family
-                showMsg m ++ "@" ++ re
-            | none => "none@-"
-          parseLoop magic total fuel r (s!"{total - r.length}@{txt}" :: acc)
-      | (.error e, r) =>
-          -- an error raised inside msg_deser (header, length and checksum were accepted) is marked:
-          -- the property does not say how a well-framed but malformed payload is treated
-          let tag := if frameAccepted magic s then "@payload" else ""
-          (s!"err:{e.family}@{total - r.length}{tag}" :: acc).reverse
+/-- `c18.parse`: the messages and the final error are those of `Model.Msg.parseAll` (the function
+    `parse_stream`, `parse_stream_append` speak about); the positions come from `Model.Msg.parseTrace`
+    (`parseAll_eq_trace`: same messages, same error; `parse_stream_trace`).  Should the two ever
+    disagree in length the reply is `model-inconsistent`. -/
+def parseReport (magic s : Bytes) : String :=
+  let (msgs, err) := Model.Msg.parseAll magic s
+  let (tr, terr) := Model.Msg.parseTrace magic s
+  if msgs.length ≠ tr.length then "model-inconsistent" else
+  let total := s.length
+  let step := fun (acc : List String × Bytes) (p : Option Msg × (Option Msg × Bytes)) =>
+    let (out, before) := acc
+    let (m, (_, r)) := p
+    let consumed := before.take (before.length - r.length)
+    let txt := match m with
+      | some m =>
+          let re := match Model.Msg.toBytes magic m with
+            | .ok b => if b = consumed then "same" else "diff"
+            | .error e => "err:" ++ e.family
+          showMsg m ++ "@" ++ re
+      | none => "none@-"
+    (s!"{total - r.length}@{txt}" :: out, r)
+  let (out, last) := (msgs.zip tr).foldl step ([], s)
+  let fin := match err, terr with
+    | none, none => "eof"
+    | some e, some (_, r) =>
+        -- an error raised inside msg_deser (header, length and checksum were accepted:
+        -- `returned_was_accepted`, `rejected_before_dispatch`) is marked: the property does not say
+        -- how a well-framed but malformed payload is treated
+        let tag := if Model.Msg.frameAccepted magic last then "@payload" else ""
+        s!"err:{e.family}@{total - r.length}{tag}"
+    | _, _ => "model-inconsistent"
+  "~".intercalate (fin :: out).reverse
 
 /-! ### histories: one case = a sequence of steps on named message values, streams and the chain
 
@@ -248,7 +252,7 @@ def handle (op : String) (args : List String) : Option String :=
       | _ => badArgs
   | "c18.parse", [chain, hex] => some <|
       match magicOf? chain, parseHex? hex with
-      | some magic, some s => "~".intercalate (parseLoop magic s.length s.length s [])
+      | some magic, some s => parseReport magic s
       | _, _ => badArgs
   | "c18.frombytes", [chain, hex] => some <|
       match magicOf? chain, parseHex? hex with
@@ -260,7 +264,7 @@ def handle (op : String) (args : List String) : Option String :=
                  | .error _ => false
                (if canonical then "W:" else "O:") ++ showMsg m
            | .ok none => "O:none"
-           | .error e => (if frameAccepted magic s then "O:" else "W:") ++ "err:" ++ e.family)
+           | .error e => (if Model.Msg.frameAccepted magic s then "O:" else "W:") ++ "err:" ++ e.family)
       | _, _ => badArgs
   | "c18.magic", [chain] => some <|
       match magicOf? chain with
